@@ -96,6 +96,10 @@ fn check_color(a: Adapter, slot: &str, src: Option<Col>, got: Option<Col>) -> Re
             if s % 8 != g % 8 {
                 return Err((format!("c16:{n}:{slot}:hue"), format!("{slot} hue changed: source palette colour {s}, output shows palette colour {g}")));
             }
+            // a target without (per-slot) bright colours may lose brightness, but nothing may *become* bright
+            if s < 8 && g >= 8 {
+                return Err((format!("c16:{n}:{slot}:brightness"), format!("{slot} became bright: source palette colour {s}, output shows {g}")));
+            }
             if a.has_brightness() && s != g {
                 return Err((format!("c16:{n}:{slot}:brightness"), format!("{slot} brightness changed: source palette colour {s}, output shows {g}")));
             }
@@ -142,6 +146,50 @@ pub fn check(a: Adapter, src: SgrState) -> Result<(), (String, String)> {
                 return ctx(Err((format!("c16:{}:effect-spurious:{}", a.name(), fx::NAMES[i]), format!("effect {} appears although the source does not have it", fx::NAMES[i]))));
             }
         }
+    }
+    Ok(())
+}
+
+/// termcolor: `set_color` replaces the writer's colour settings, so after set_color(a); set_color(b) the text is shown in b
+/// alone, whatever a was (the other libraries wrap the text in prefix / suffix and are checked from the default state).
+pub fn check_termcolor_sequence(first: SgrState, second: SgrState) -> Result<(), (String, String)> {
+    use std::io::Write as _;
+    use termcolor::WriteColor as _;
+    let mut w = termcolor::Ansi::new(Vec::new());
+    let _ = w.set_color(&anstyle_termcolor::to_termcolor_spec(style_of(first)));
+    let _ = w.write_all(b"y");
+    let _ = w.set_color(&anstyle_termcolor::to_termcolor_spec(style_of(second)));
+    let _ = w.write_all(b"x");
+    let _ = w.reset();
+    let out = w.into_inner();
+    let mut alone = termcolor::Ansi::new(Vec::new());
+    let _ = alone.set_color(&anstyle_termcolor::to_termcolor_spec(style_of(second)));
+    let _ = alone.write_all(b"x");
+    let _ = alone.reset();
+    let alone = alone.into_inner();
+    let i = out.iter().position(|b| *b == b'y').map(|p| p + 1).unwrap_or(0);
+    // interpret the whole output, skipping the first payload
+    let ev = vt::parse(&out, Policy::Consume);
+    let mut sgr = RefSgr::new(UlMode::Flags);
+    let mut got = None;
+    for e in &ev {
+        match e {
+            Ev::Print('x') => {
+                got = Some(sgr.s.normalized());
+                break;
+            }
+            Ev::Print(_) => {}
+            e => {
+                sgr.on_event(e);
+            }
+        }
+    }
+    let want = state_at_x(&alone).map_err(|e| ("c16:termcolor:output".to_string(), e))?;
+    if got != Some(want) {
+        return Err((
+            "c16:termcolor:sequence".into(),
+            format!("set_color([{}]) then set_color([{}]) -> {:?}: the second text is shown in {:?}, on its own the second style shows {:?}", first.describe(), second.describe(), show(&out[i.saturating_sub(1)..]), got.map(|g| g.describe()), want.describe()),
+        ));
     }
     Ok(())
 }
@@ -225,6 +273,15 @@ pub fn colours() -> Vec<Col> {
     v
 }
 
+const FXSETS: [u16; 8] = [0, fx::BOLD, fx::UNDERLINE | fx::ITALIC, fx::STRIKE, 0xfff, fx::DIM | fx::BLINK | fx::INVERT | fx::HIDDEN, fx::DOUBLE_UNDERLINE, fx::CURLY_UNDERLINE | fx::DOTTED_UNDERLINE | fx::DASHED_UNDERLINE];
+const EIGHT: [Option<Col>; 8] = [None, Some(Col::P16(1)), Some(Col::P16(12)), Some(Col::P16(15)), Some(Col::Idx(4)), Some(Col::Idx(200)), Some(Col::Rgb(1, 2, 3)), Some(Col::Rgb(255, 128, 0))];
+
+fn seq_states(i: usize, f1: u16, f2: u16) -> (SgrState, SgrState) {
+    let first = SgrState { fg: EIGHT[i % 8], bg: EIGHT[(i + 3) % 8], ul: None, fx: f1 };
+    let second = SgrState { fg: EIGHT[(i + 5) % 8], bg: if i % 2 == 0 { None } else { EIGHT[(i + 1) % 8] }, ul: None, fx: f2 };
+    (first, second)
+}
+
 pub fn run(cfg: &Cfg) -> Stats {
     let nrand = match cfg.tier {
         Tier::Tiny => 100u64,
@@ -232,8 +289,8 @@ pub fn run(cfg: &Cfg) -> Stats {
         Tier::Thorough => 2_000_000,
     };
     let cols = colours();
-    let fxsets: [u16; 8] = [0, fx::BOLD, fx::UNDERLINE | fx::ITALIC, fx::STRIKE, 0xfff, fx::DIM | fx::BLINK | fx::INVERT | fx::HIDDEN, fx::DOUBLE_UNDERLINE, fx::CURLY_UNDERLINE | fx::DOTTED_UNDERLINE | fx::DASHED_UNDERLINE];
-    let eight: [Option<Col>; 8] = [None, Some(Col::P16(1)), Some(Col::P16(12)), Some(Col::P16(15)), Some(Col::Idx(4)), Some(Col::Idx(200)), Some(Col::Rgb(1, 2, 3)), Some(Col::Rgb(255, 128, 0))];
+    let fxsets = FXSETS;
+    let eight = EIGHT;
     let mut st = par(cfg, |shard, n| {
         let mut st = Stats::new();
         let mut k = 0u64;
@@ -275,6 +332,24 @@ pub fn run(cfg: &Cfg) -> Stats {
                 for (i, c) in eight.iter().enumerate() {
                     let s = SgrState { fg: *c, bg: eight[(i + 3) % 8], ul: eight[(i + 5) % 8], fx: bits };
                     eval(a, s, &mut st, true);
+                }
+            }
+        }
+        // termcolor: a second set_color replaces the first
+        for (i, c) in eight.iter().enumerate() {
+            for f1 in fxsets {
+                for f2 in fxsets {
+                    if !mine() {
+                        continue;
+                    }
+                    let _ = c;
+                    let (first, second) = seq_states(i, f1, f2);
+                    st.eval();
+                    st.nontrivial_enum();
+                    st.count("termcolor_two_style_sequences");
+                    if let Err((sig, msg)) = check_termcolor_sequence(first, second) {
+                        st.viol(&sig, msg, Case::new("c16-termcolor-seq").n(i as i64).n(f1 as i64).n(f2 as i64));
+                    }
                 }
             }
         }
@@ -324,6 +399,10 @@ pub fn replay(case: &Case) -> Result<String, Viol> {
         let v = case.nums.first().copied().unwrap_or(0) as u8;
         let f = case.nums.get(1).copied().unwrap_or(0) as u8;
         vcore::guarded(|| check_syntect(v, 255 - v, v / 2, 255 - v, v, 7, f))
+    } else if case.kind == "c16-termcolor-seq" {
+        let g = |i: usize| case.nums.get(i).copied().unwrap_or(0);
+        let (first, second) = seq_states(g(0) as usize, g(1) as u16 & 0xfff, g(2) as u16 & 0xfff);
+        vcore::guarded(|| check_termcolor_sequence(first, second))
     } else {
         let (a, s) = decode(case);
         vcore::guarded(|| check(a, s))
